@@ -82,10 +82,12 @@ def relAppT (tt : TermType) (key : String) (i : CItem) (a : CApp) : CApp :=
     let aph := prune (subX a.allocatedPh i.res)
     -- the confirmation of a replacement is followed by its real allocation: the application is not idle (fix 3b9e769)
     let replacing := tt == .replaced && i.release.isSome
+    -- a failing application is only done when its real allocations are gone too (fix 81c5cb7)
+    let failed := a.state == "Failing" && isZero (some a.allocated)
     let st :=
       if isZero (some aph) &&
-         ((a.state == "Completing" && !a.stateTimer && !replacing) || a.state == "Failing" || a.state == "Resuming" ||
-          (isZero (some a.pending) && isZero (some a.allocated) && !replacing)) then
+         ((a.state == "Completing" && !a.stateTimer && !replacing) || failed || a.state == "Resuming" ||
+          (isZero (some a.pending) && isZero (some a.allocated) && !replacing && a.state != "Failing")) then
         (if a.state == "Failing" then fireState a.state .fail
          else if a.state == "Resuming" then fireState a.state .run
          else fireState a.state .complete)
@@ -94,7 +96,11 @@ def relAppT (tt : TermType) (key : String) (i : CItem) (a : CApp) : CApp :=
     { a1 with live := !(terminated st) }
   else
     let alloc := prune (subX a.allocated i.res)
-    let st := if isZero (some a.pending) && isZero (some alloc) then fireState a.state .complete else a.state
+    -- the last real allocation of a failing application: it has failed once the placeholders are gone as well (fix 81c5cb7)
+    let st := if isZero (some a.pending) && isZero (some alloc) then
+        (if a.state == "Failing" then (if isZero (some a.allocatedPh) then fireState a.state .fail else a.state)
+         else fireState a.state .complete)
+      else a.state
     let a1 := setState { a with items := items, allocated := alloc } st
     { a1 with live := !(terminated st) }
 
@@ -203,7 +209,7 @@ def replApp (p r : CItem) (a : CApp) : CApp :=
   -- (a replacement is being confirmed: only a Failing / Resuming application progresses here — fix 3b9e769; its real
   --  allocation follows at once)
   let st1 :=
-    if isZero (some aph) && (a.state == "Failing" || a.state == "Resuming") then
+    if isZero (some aph) && ((a.state == "Failing" && isZero (some a.allocated)) || a.state == "Resuming") then
       (if a.state == "Failing" then fireState a.state .fail else fireState a.state .run)
     else a.state
   let a1 := setState { a with allocatedPh := aph, phData := bumpReplaced p.tg a.phData } st1
